@@ -1,4 +1,97 @@
-/-! Line protocol handler for the `sin` domain (stub until the model exists). -/
+import OFCore.SetInput
+import OFCore.Drv.Per
+/-!
+Line protocol handler for the `sin` domain (spreading of long-period inputs, C16).
+
+```
+sin <defUnit> <absent|dispatch|divide> <num|int> <count> <op> <op> …
+   op = S|<period>|<mode>|<v1;v2;…>   set_input            -> ok | ERR
+        G|<period>                    get_array            -> v1;v2;… | none
+        A|<period>                    calculate_add        -> v1;v2;… | empty | ERR
+        K                             all known periods    -> [p=v1;v2&p=…]   (sorted)
+```
+One case per line (a fresh holder), the answers of the ops separated by one blank. `<mode>` says
+how the harness passes the values to the real code (Python floats, ints, numpy arrays); the
+model ignores it. Values are exact rationals `p/q` in lowest terms (`p` when `q = 1`).
+-/
 namespace OFCore.Drv
-def handleSin (_args : List String) : String := "BAD"
+
+def parseRat? (s : String) : Option Rat :=
+  match s.splitOn "/" with
+  | [p] => p.toInt?.map (fun (n : Int) => (n : Rat))
+  | [p, q] => do
+    let n ← p.toInt?
+    let d ← q.toNat?
+    if d = 0 then none else pure (mkRat n d)
+  | _ => none
+
+def parseVec? (s : String) : Option Vec := (s.splitOn ";").mapM parseRat?
+
+def showRat (x : Rat) : String := if x.den = 1 then toString x.num else s!"{x.num}/{x.den}"
+
+def showVec (v : Vec) : String := ";".intercalate (v.map showRat)
+
+def unitIdx : DUnit → Nat
+  | .weekday => 0 | .week => 1 | .day => 2 | .month => 3 | .year => 4 | .eternity => 5
+
+/-- strict order on keys used to print a store canonically -/
+def keyLt (a b : Period) : Bool :=
+  let ka : List Int := [unitIdx a.unit, a.start.y, a.start.m, a.start.d, a.size]
+  let kb : List Int := [unitIdx b.unit, b.start.y, b.start.m, b.start.d, b.size]
+  decide (ka < kb)
+
+def insertKey (p : Period) : List Period → List Period
+  | [] => [p]
+  | q :: r => if keyLt p q then p :: q :: r else q :: insertKey p r
+
+def sortKeys (ps : List Period) : List Period := ps.foldr insertKey []
+
+def showStore (s : Store) : String :=
+  "[" ++ "&".intercalate ((sortKeys (skeys s)).map fun q =>
+    showPeriod q ++ "=" ++ showVec ((sget s q).getD [])) ++ "]"
+
+def parseRule? : String → Option SRule
+  | "absent" => some .absent | "dispatch" => some .dispatch | "divide" => some .divide | _ => none
+
+def parseKind? : String → Option VKind
+  | "num" => some .num | "int" => some .int | _ => none
+
+inductive SinOp
+  | set (p : Period) (v : Vec)
+  | get (p : Period)
+  | add (p : Period)
+  | known
+
+def parseOp? (tok : String) : Option SinOp :=
+  match tok.splitOn "|" with
+  | ["S", p, _mode, vs] => do pure (.set (← parsePeriod? p) (← parseVec? vs))
+  | ["G", p] => do pure (.get (← parsePeriod? p))
+  | ["A", p] => do pure (.add (← parsePeriod? p))
+  | ["K"] => some .known
+  | _ => none
+
+def runOps (var : VarSpec) : Store → List SinOp → List String
+  | _, [] => []
+  | s, .set p v :: r =>
+    match setInput var s p v with
+    | .ok s' => "ok" :: runOps var s' r
+    | .error _ => "ERR" :: runOps var s r
+  | s, .get p :: r =>
+    (match getArray var s p with | some v => showVec v | none => "none") :: runOps var s r
+  | s, .add p :: r =>
+    match calcAdd var s p with
+    | .ok (some v, s') => showVec v :: runOps var s' r
+    | .ok (none, s') => "empty" :: runOps var s' r
+    | .error _ => "ERR" :: runOps var s r
+  | s, .known :: r => showStore s :: runOps var s r
+
+def handleSin (args : List String) : String :=
+  match args with
+  | du :: rule :: kind :: cnt :: ops =>
+    match DUnit.ofName du, parseRule? rule, parseKind? kind, cnt.toNat?, ops.mapM parseOp? with
+    | some du, some rule, some kind, some cnt, some ops =>
+      if ops.isEmpty then "BAD" else " ".intercalate (runOps ⟨du, rule, kind, cnt⟩ [] ops)
+    | _, _, _, _, _ => "BAD"
+  | _ => "BAD"
+
 end OFCore.Drv
